@@ -133,6 +133,23 @@ def run_scenario(arg):
                     ch = 13
                 compare("tar2sqfs-stdin", cleant, t2s(e, ch), count_injections(e["VERIF_EVLOG"]))
                 oc.inc("pipe_chunkings")
+            # --- scenario 2b: compressed archive on stdin: the format probe must not depend on how many bytes the first read returns
+            from . import codecs
+            for ci, codec in enumerate(["gzip", "xz", "zstd", "bzip2"]):
+                cdata = codecs.compress(codec, tardata)
+
+                def t2c(env, chunk, cdata=cdata):
+                    out = os.path.join(work, "t.sqfs")
+                    if os.path.exists(out):
+                        os.unlink(out)
+                    rc, o, er = feeder_run([B["tar2sqfs"]] + base + [out], cdata, chunk, env)
+                    return (rc, core.sha_file(out) if rc == 0 and os.path.exists(out) else None)
+                for s in range(2 if tier == "quick" else 6):
+                    e = sched_env(150 + 10 * ci + s)
+                    # mostly one-byte transfers at the start of the stream
+                    e["VERIF_IO"] = "seed=%d,pshort=95,peintr=%d,maxeintr=2,pone=%d" % (core.SEED * 1000 + 150 + 10 * ci + s, (0, 20)[s % 2], (90, 60)[s % 2])
+                    compare("tar2sqfs-stdin-" + codec, cleant, t2c(e, [None, 1, 3][s % 3]), count_injections(e["VERIF_EVLOG"]))
+                    oc.inc("compressed_stdin_runs")
             # reference image for the readers
             res = core.run_tool([B["gensquashfs"]] + base + ["-D", root, "-k", "-x", img], timeout=90)
             # --- scenario 3: sqfs2tar to a pipe, plain and compressed
@@ -176,6 +193,22 @@ def run_scenario(arg):
             for s in range(2):
                 e = sched_env(500 + s)
                 compare("sqfsdiff", c0, diff(e), count_injections(e["VERIF_EVLOG"]))
+            # --- scenario 6: failing runs must fail the same way: an image cut short (reads beyond the end of the file return 0 bytes)
+            cut = os.path.join(work, "cut.sqfs")
+            full = open(img, "rb").read()
+            with open(cut, "wb") as f:
+                f.write(full[:len(full) * r.choice([30, 60, 90]) // 100])
+            for tag, argv in (("rdsquashfs-list-truncated", [B["rdsquashfs"], "-l", "/", cut]), ("sqfs2tar-truncated", [B["sqfs2tar"], cut]),
+                              ("rdsquashfs-cat-truncated", [B["rdsquashfs"], "-c", "/bigfile", cut])):
+                def trun(env, argv=argv):
+                    res = core.run_tool(argv, env=env, timeout=40)
+                    return (None if res.hang else res.rc, hashlib.sha256(res.out).hexdigest() if not res.hang else None)
+                c0 = trun({})
+                for s in range(2 if tier == "quick" else 6):
+                    e = sched_env(600 + s)
+                    e["VERIF_IO"] = "seed=%d,pshort=%d,peintr=%d,maxeintr=3,pone=20" % (core.SEED * 1000 + 600 + s, (0, 50)[s % 2], (60, 30)[s % 2])
+                    compare(tag, c0, trun(e), count_injections(e["VERIF_EVLOG"]))
+                    oc.inc("truncated_image_runs")
             oc.features = (comp, bs, idx)
             oc.sample = {"scenario": idx, "comp": comp, "bs": bs, "tar_bytes": len(tardata), "schedules": nsched}
     except Exception:
@@ -186,7 +219,7 @@ def run_scenario(arg):
 def main(tier):
     rep = core.Report(PROP, tier, "exploration",
                       "each evaluation = one tool run under a seeded schedule of short counts (down to 1 byte) and EINTR on every read/write/pread/pwrite "
-                      "of project code (link-time wrappers) and, for tar2sqfs, a stdin feeder with chunk sizes 1..65536; compared (exit status, output sha256) "
+                      "of project code (link-time wrappers) and, for tar2sqfs, a stdin feeder with chunk sizes 1..65536 (plain and gzip/xz/zstd/bzip2 archives, one-byte reads at the format probe); readers also on an image cut short; compared (exit status, output sha256) "
                       "with the unperturbed run of the same tool; distinct = distinct (input, compressor, block size)")
     build.build("plain")
     n = 10 if tier == "quick" else 40
